@@ -66,7 +66,7 @@ void oracle_delivery(World& W)
       for (size_t si = 0; si < W.stmts.size(); ++si)
       {
         Stmt const& s = W.stmts[si];
-        if (s.w != w || !s.accepted || s.kind == SKind::Backtrace) continue;
+        if (s.w != w || !s.accepted || is_bt_kind(s.kind)) continue;
         LoggerInfo const& L = W.loggers[s.logger];
         auto pos = std::find(L.sinks.begin(), L.sinks.end(), static_cast<int>(sk));
         if (pos == L.sinks.end()) continue;
@@ -291,6 +291,16 @@ void oracle_backtrace(World& W)
         if (e.ts != s.ts) { fail(W, "statement " + id + " replayed with timestamp " + std::to_string(e.ts) + ", its log call read " + std::to_string(s.ts)); return; }
         if (e.tid != std::to_string(W.workers[s.w - 1].w->tid)) { fail(W, "statement " + id + " replayed with a foreign thread id"); return; }
         if (pad != make_pad(s.w, s.seq, s.padlen)) { fail(W, "statement " + id + " payload corrupted"); return; }
+        {
+          std::string want_named;
+          if (s.kind == SKind::NamedBacktrace) want_named = "a=" + std::to_string(s.w) + ";b=" + std::to_string(s.seq) + ";c=" + make_pad(s.w, s.seq, s.padlen) + ";";
+          if (e.named != want_named)
+          {
+            fail(W, "statement " + id + " was handed to sink " + std::to_string(sk) + " with named args \"" + esc(e.named, 80) + "\", expected \"" + esc(want_named, 80) +
+                      "\" (a replayed backtrace statement must carry its own named args, any other statement none)");
+            return;
+          }
+        }
         ++ei;
       }
       if (ei < expect.size())
